@@ -56,6 +56,12 @@ class FuncRun(FunctionEngine):
             v = self.new_cell(st, t, term, track=False) if t.is_container else V(t, term)
             st.env[p] = v
             self.param_vals[p] = v
+        # free variables of nested functions (closure variables) are treated like parameters
+        for p, pty in c.get('free', {}).items():
+            t = parse_type(pty)
+            term = z3.Const(f'p!{p}', sort_of(t))
+            st.env[p] = self.new_cell(st, t, term, track=False) if t.is_container else V(t, term)
+            self.param_vals[p] = st.env[p]
         st.alloc = []
         for gname, gty in c.get('ghost', {}).items():
             t = parse_type(gty)
